@@ -1,5 +1,6 @@
 import Driver.Codec
 import Driver.Asks
+import Driver.WireCodec
 import WebAuthnModel.Model.AuthData
 import WebAuthnModel.Model.Cose
 import WebAuthnModel.Model.Origin
@@ -128,6 +129,16 @@ def handlePure (op : String) (j : Json) : Except String Json := do
   | "aaguid.parse" =>
     match Fido.parse (← getHex j "s") with
     | some a => return Json.mkObj [("ok", true), ("a", hex a)]
+    | none => return Json.mkObj [("ok", false)]
+  | "wire.marshal" =>
+    let ty ← getStr j "type"
+    let v ← valOfProto (← j.getObjVal? "val")
+    return Json.mkObj [("doc", wjsonToProto (Wire.marshal Spec.Wire.schemas ty v))]
+  | "wire.unmarshal" =>
+    let ty ← getStr j "type"
+    let d ← wjsonOfProto (← j.getObjVal? "doc")
+    match Wire.unmarshal Spec.Wire.schemas ty d with
+    | some v => return Json.mkObj [("ok", true), ("val", valToProto v)]
     | none => return Json.mkObj [("ok", false)]
   | "alg.tables" =>
     let a ← getInt j "alg"
